@@ -63,10 +63,21 @@ pub fn judge_script<V: Variant>(stream: Stream, script: &Script, cache: &Mutex<H
         None => {
             // the helper must drive the reader to the end of the stream: a short read is not EOF
             if !rd.saw_eof && rd.pos < script.total {
-                return Err(format!(
-                    "{}: hash_stream stopped after {delivered} of {} bytes although the reader reported neither end of stream (a 0-byte read) nor an error",
-                    V::NAME, script.total
-                ));
+                let max = crate::refmodel::tables::MAX_LEN;
+                let pending_hard = script.deviations.iter().find(|(i, a)| *i >= rd.step && matches!(a, Ans::Hard(_)));
+                if rd.pos <= max {
+                    // the result still depends on the bytes that were not read
+                    return Err(format!(
+                        "{}: hash_stream stopped after {delivered} of {} bytes although the reader reported neither end of stream (a 0-byte read) nor an error",
+                        V::NAME, script.total
+                    ));
+                } else if let Some((step, hard)) = pending_hard {
+                    // past MAX the hash is decided (too large), but an error the reader still has to report must not be lost
+                    return Err(format!(
+                        "{}: hash_stream stopped polling the reader after {delivered} bytes; the hard error {} it reports at read call {step} is never returned",
+                        V::NAME, hard.name()
+                    ));
+                }
             }
             let expect = expected_for::<V>(stream, delivered, cache);
             match (&res, &expect) {
